@@ -1,0 +1,13 @@
+//go:build verif
+
+// Contract for the cubic non-residue of the base field used by the 6-over-3 tower of this curve (comment-only;
+// installed by /verif/gcv gen-contracts): E3 = Fp[u]/(u^3 - nr) with nr = 2.
+
+package fp
+
+//@ func Element.MulByNonResidue
+//@ layer ring Element
+//@ ensures[value] *z == 2 * old(*x)
+//@ ensures[result] result == z
+//@ modifies z
+//@ end
